@@ -211,6 +211,9 @@ const MINDUSTRY: Table = Table {
         ("game_version", None),
         ("players_bots", None),
         ("has_password", None),
+        // (signed 32-bit fields behind unsigned accessors: constrained where the value is representable)
+        ("players_online", Some("+/players")),
+        ("players_maximum", Some("+/player_limit")),
     ],
     players: None,
     players_none: true,
@@ -240,7 +243,7 @@ fn mutate<T: serde::Serialize + serde::de::DeserializeOwned>(t: &Table, r: T, c:
         Err(_) => return r,
     };
     let mut changed = false;
-    let mut ptrs: Vec<String> = t.fields.iter().filter_map(|(_, p)| p.map(|x| x.to_string())).collect();
+    let mut ptrs: Vec<String> = t.fields.iter().filter_map(|(_, p)| p.map(|x| x.trim_start_matches('+').to_string())).collect();
     if let Some((pp, name_key, score_key)) = &t.players {
         ptrs.push(format!("{pp}/0/{name_key}"));
         if let Some(sk) = score_key {
@@ -308,6 +311,14 @@ fn check_view(t: &Table, r: &dyn CommonResponse, specific: &Value) -> Option<(St
                 match (&w, got) {
                     (Value::String(a), Value::String(b)) if a.to_lowercase() == b.to_lowercase() => got.clone(),
                     _ => w,
+                }
+            }
+            // `+/pointer`: a signed field behind an unsigned accessor; equal where the value fits, unconstrained where it cannot
+            Some(p) if p.starts_with('+') => {
+                let w = specific.pointer(&p[1 ..]).cloned().unwrap_or(Value::Null);
+                match w.as_u64() {
+                    Some(n) if n <= u32::MAX as u64 => w,
+                    _ => got.clone(),
                 }
             }
             Some(p) => specific.pointer(p).cloned().unwrap_or(Value::Null),
@@ -423,7 +434,7 @@ impl Prop for C15 {
             .into()
     }
     fn assumptions(&self) -> Vec<String> {
-        vec!["Bedrock game_mode (non-string specific type), Mindustry name/players counts (lossy integer conversion) and Unreal 2 players_bots are left unconstrained".into()]
+        vec!["Bedrock game_mode (non-string specific type), Mindustry name, and Unreal 2 players_bots are left unconstrained; Mindustry's player counts (signed 32-bit fields behind unsigned accessors) are constrained where the value is representable and unconstrained for negative values, for which no exact unsigned value exists".into()]
     }
     fn run_case(&self, tier: Tier, idx: usize, ctx: &mut Ctx) {
         let bound = if tier.is_thorough() { 2 } else { 1 };
